@@ -212,6 +212,8 @@ class SplitOriginBridging:
             return parts_equal(lower, head) and parts_equal(upper, tail)
         return parts_equal(upper, head) and parts_equal(lower, tail)
 
+    returns = ListOf(ListOf(FL, 1, 2), 2, 2, as_tuple=True)
+
 
 @spec
 def parts_equal(xs, ys):
@@ -439,3 +441,96 @@ class OffsetLocationRingTwoParts:
     requires = OffsetLocationRing.__dict__["requires"]
     ensures = OffsetLocationRing.__dict__["ensures"]
     known = OffsetLocationRing.__dict__["known"]
+
+
+# ---- distance between multi-part locations; reduction of parts --------------------------------------------
+@spec
+def d_parts(first, second, wrap_point):
+    """set-of-bases distance: the closest pair of parts (ring distance when a wrap point is given)"""
+    if share_bases(first, second):
+        return 0
+    if wrap_point is None:
+        return min(d_line(p, q) for p in first.parts for q in second.parts)
+    return min(d_ring(p, q, wrap_point) for p in first.parts for q in second.parts)
+
+
+@contract(f"{FILE}::get_distance_between_locations", props=["C04", "C01", "C03", "C07"])
+class DistanceMultiPart:
+    """multi-exon / origin-spanning operands (2 parts each at most): the distance between the closest parts"""
+    variant = True
+    params = {"first": OneOf(FL, CL(2, 2)), "second": CL(2, 2), "wrap_point": Opt(Int)}
+
+    def requires(first, second, wrap_point):
+        return wf(first) and wf(second) and (wrap_point is None or (
+            wrap_point > 0 and within(first, wrap_point) and within(second, wrap_point)))
+
+    def ensures(first, second, wrap_point, result):
+        return result == d_parts(first, second, wrap_point) and result >= 0
+
+    returns = Int
+
+
+@contract(f"{FILE}::_reduce_parts_to_location", props=["C04", "C05", "C06"])
+class ReducePartsToLocation:
+    """parts of one location (<= 3) reduced to a span: the hull, or for an origin-bridging location the two-part
+    span [min start of the pre-origin parts, wrap) + [0, max end of the post-origin parts)"""
+    params = {"parts": ListOf(FL, 1, 3), "wrap_point": Opt(Int)}
+
+    def requires(parts, wrap_point):
+        return (all(part_ok(p) for p in parts) and all(p.strand == parts[0].strand for p in parts)
+                and (wrap_point is None or (wrap_point > 0 and all(p.end <= wrap_point for p in parts)))
+                and implies(len(parts) > 1 and bridges_parts(parts), split_valid_parts(parts)))
+
+    def _raises(parts, wrap_point):
+        return len(parts) > 1 and bridges_parts(parts) and wrap_point is None
+
+    raises = {"ValueError": _raises}
+
+    def ensures(parts, wrap_point, result):
+        if len(parts) == 1:
+            return same_part(result, parts[0])
+        if not bridges_parts(parts):
+            return (simple(result) and result.start == min(p.start for p in parts)
+                    and result.end == max(p.end for p in parts) and result.strand == parts[0].strand)
+        k = first_break_parts(parts)
+        head = parts[:k]
+        tail = parts[k:]
+        upper = tail if parts[0].strand == -1 else head
+        lower = head if parts[0].strand == -1 else tail
+        return (len(result.parts) == 2
+                and result.parts[0].start == min(p.start for p in upper) and result.parts[0].end == wrap_point
+                and result.parts[1].start == 0 and result.parts[1].end == max(p.end for p in lower)
+                and all(p.strand == 1 for p in result.parts))
+
+
+@spec
+def same_part(a, b):
+    return a.start == b.start and a.end == b.end and a.strand == b.strand
+
+
+@spec
+def bridges_parts(parts):
+    if len(parts) < 2:
+        return False
+    if parts[0].strand == -1:
+        return any(parts[i].start < parts[i + 1].start for i in range(len(parts) - 1))
+    return any(parts[i].start > parts[i + 1].start for i in range(len(parts) - 1))
+
+
+@spec
+def first_break_parts(parts):
+    if len(parts) == 2:
+        return 1
+    if parts[0].strand == -1:
+        return 1 if not parts[1].start < parts[0].start else 2
+    return 1 if not parts[1].start > parts[0].start else 2
+
+
+@spec
+def split_valid_parts(parts):
+    k = first_break_parts(parts)
+    head = parts[:k]
+    tail = parts[k:]
+    strand = parts[0].strand
+    disjoint_hulls = not (hull_start(head) < hull_end(tail) and hull_start(tail) < hull_end(head))
+    return disjoint_hulls and monotone(head, strand) and monotone(tail, strand)
